@@ -1,6 +1,100 @@
-(* placeholder until LpProofs lands *)
+(* Property C10 — link-layer fragmentation and reassembly reproduce every packet exactly.
+   Only theorem statements closed by `exact`, each followed by Print Assumptions.
+   Model: Face/Lp.v (fw/face/ndnlp-link-service.go sendPacket / handleIncomingFrame / reassemblePacket).
+   send_packet mtu o seq tok inface mark wire = (frames handed to transport.sendFrame, next sequence number);
+   o = (fragmentation enabled, incoming-face indication enabled); mark = the congestion mark attached (the packet's own, or
+   1 when the link service decides to mark: that decision depends on time and socket queue length and is an input). *)
 From Base Require Import Bytes VarNum.
-From Face Require Import GenConsts Stream Lp.
+From Face Require Import GenConsts Stream StreamProofs Lp LpProofs LpReasm LpTheorems LpTotal.
+From Coq Require Import Permutation.
 Open Scope N_scope.
-Example c10_example : length (fst (send_packet 128 (mkSo true false) 5 [] None None (repeat 7 300))) = 3%nat.
-Proof. vm_compute. reflexivity. Qed.
+
+(* Every frame handed to the transport fits the MTU - for every MTU (the statement's range 128..8800 is included; the bound
+   65535 is where the reserved 3-byte length fields stop sufficing), every packet size, token, mark, incoming-face id,
+   with fragmentation on or off.  All sizes at once, by arithmetic over the VarNum sizes (no sweep). *)
+Theorem frames_fit : forall mtu o seq tok inface mark wire,
+  (mtu <= 65535)%Z -> (zlen wire <= 65535)%Z ->
+  Forall (fits mtu) (fst (send_packet mtu o seq tok inface mark wire)).
+Proof. exact frames_fit_lemma. Qed.
+Print Assumptions frames_fit.
+
+(* A packet that fits - i.e. whose LpPacket (token, mark, incoming-face id, Fragment, no fragmentation fields) is no
+   larger than the MTU - is sent as exactly one frame: that LpPacket.  The sequence counter is not consumed. *)
+Theorem fits_one_frame : forall mtu o seq tok inface mark wire,
+  fits mtu (lp_encode (mkLpf None None None tok (if o_ifi o then inface else None) None None mark (Some wire))) ->
+  send_packet mtu o seq tok inface mark wire =
+    ([lp_encode (mkLpf None None None tok (if o_ifi o then inface else None) None None mark (Some wire))], seq).
+Proof.
+  exact (fun mtu o seq tok inface mark wire H =>
+           fits_one_frame_lemma mtu o seq tok inface mark wire (proj2 (single_frame_fits_spec mtu o tok inface mark wire) H)).
+Qed.
+Print Assumptions fits_one_frame.
+
+(* With fragmentation disabled a packet that does not fit is dropped: no frame at all - never a truncated one. *)
+Theorem nofrag_oversize_dropped_not_truncated : forall mtu o seq tok inface mark wire,
+  single_frame_fits mtu o tok inface mark wire = false -> o_frag o = false ->
+  send_packet mtu o seq tok inface mark wire = ([], seq).
+Proof. exact nofrag_oversize_dropped_lemma. Qed.
+Print Assumptions nofrag_oversize_dropped_not_truncated.
+
+(* The peer decodes what the sender encodes (for every frame the sender can build). *)
+Theorem frame_decode_encode : forall l3 f, sendable f -> pkt_decode l3 (lp_encode f) = DecOk (DPkt None None (Some f)).
+Proof. exact decode_encode. Qed.
+Print Assumptions frame_decode_encode.
+
+(* Core theorem.  Any number of packets (1..MaxNDNPacketSize bytes, PIT token of at most 32 bytes, any congestion mark and
+   incoming-face id, pairwise different sequence-counter values) sent on a face with any MTU >= 128 and fragmentation
+   enabled; ALL their frames delivered to the peer in ANY order and interleaving (any permutation).  Then the peer never
+   fails, hands up exactly the original packets - each exactly once, byte-identical, with its PIT token and congestion
+   mark (a permutation of the list sent) - and its partial-message store is empty again.  Sequence arithmetic is mod 2^64. *)
+Theorem reassembly_any_interleaving : forall l3 mtu o msgs frames,
+  (128 <= mtu)%Z -> o_frag o = true -> Forall msg_ok msgs -> NoDup (map s_seq msgs) ->
+  Permutation (concat (map (frames_of_msg mtu o) msgs)) frames ->
+  exists store ups,
+    link_run_bytes l3 [] [] frames = Some (store, ups) /\
+    (forall b, st_get b store = None) /\
+    Permutation ups (map (fun x => (s_wire x, s_tok x, s_mark x)) msgs).
+Proof. exact reassembly_any_interleaving_lemma. Qed.
+Print Assumptions reassembly_any_interleaving.
+
+(* link_run_bytes is the reassembly step of handleIncomingFrame (the rest is the inner parse and thread dispatch) *)
+Theorem link_step_is_handle_frame : forall c inner st i d f frame, r_reasm c = true ->
+  handle_frame true c inner st (DPkt i d (Some f)) frame =
+  match link_rx (r_store st) f with
+  | LPanic => HPanic
+  | LDrop s => HOk (mkRs s (r_nI st) (r_nD st)) []
+  | LUp s payload =>
+    match inner payload with
+    | DErr => HOk (mkRs s (r_nI st) (r_nD st)) []
+    | DPkt i' d' _ => dispatch true c (mkRs s (r_nI st) (r_nD st)) i' d' payload (f_tok f) (f_mark f)
+                               (if r_ccf c then f_nexthop f else None) (if r_lcp c then f_cachepol f else None)
+    end
+  end.
+Proof. exact handle_frame_link_rx. Qed.
+Print Assumptions link_step_is_handle_frame.
+
+(* The statement was false for the code before the repair: 3061-byte packet, MTU 1500, a 6-byte outgoing token - a frame
+   larger than the MTU, and fragments without FragIndex/FragCount (replayed on the old code: docs/C10.md). *)
+Theorem frames_fit_refuted_before_fix :
+  let fs := send_fields_old 1500 (mkSo true false) 0 false [0;0;1;2;3;4] None None (repeat 7 3061) in
+  existsb (fun f => (1500 <? zlen (lp_encode f))%Z) fs = true /\ forallb (fun f => match f_idx f with None => true | Some _ => false end) fs = true.
+Proof. exact LpTotal.frames_fit_refuted_before_fix. Qed.
+Print Assumptions frames_fit_refuted_before_fix.
+
+(* non-vacuity: two packets (300 bytes with a token and a mark, 700 bytes) on MTU 128, sequence numbers wrapping at 2^64;
+   frames interleaved in reverse order: both are handed up intact and the store is empty *)
+Example c10_example :
+  let o := mkSo true true in
+  let m1 := mkSm 18446744073709551614 [0;0;9;9;9;9] (Some 300) (Some 1) (repeat 7 300) in
+  let m2 := mkSm 5 [] None None (repeat 9 700) in
+  Forall msg_ok [m1; m2] /\
+  length (frames_of_msg 128 o m1) = 5%nat /\
+  exists store, link_run_bytes (fun _ => DErr) [] [] (rev (frames_of_msg 128 o m1 ++ frames_of_msg 128 o m2)) =
+                Some (store, [(s_wire m1, s_tok m1, s_mark m1); (s_wire m2, s_tok m2, s_mark m2)]) /\ store = [].
+Proof.
+  cbv zeta. split; [|split].
+  - repeat (apply Forall_cons; [unfold msg_ok; cbn [s_wire s_tok s_seq s_inface s_mark olt length]; repeat split;
+                                 try (vm_compute; (reflexivity || discriminate)); try exact I; repeat constructor|]). apply Forall_nil.
+  - vm_compute. reflexivity.
+  - eexists. vm_compute. split; reflexivity.
+Qed.
